@@ -1,4 +1,5 @@
-(* C18 — extract-then-rebuild, sums of parts (both basis modes), and the refutation of calc_j_mat as coded.
+(* C18 — extract-then-rebuild, sums of parts (both basis modes), and the refutation of calc_j_mat as coded before fix
+   c18-calc-j-mat-identity-component ([calc_j_mat_prefix]).
    Same hypotheses as C18_Extract.  Generic in the ordered field; axiom-free. *)
 From Coq Require Import Field Ring Setoid Arith Lia Bool List.
 From QV.Core Require Import OF Sums Mat Cplx.
@@ -72,60 +73,98 @@ Proof. intros s t Hs Ht. destruct (divmod_lt s Hs) as [A1 A2], (divmod_lt t Ht) 
   rewrite cj_sub, !cj_mul, !cj_zof. unfold cI, mid.
   destruct (Nat.eqb (s / d) (t / d)), (Nat.eqb (s mod d) (t mod d)); rewrite ?cj_1, ?cj_0; ring. Qed.
 
-(* ---------------------------------------------------------------- extract-then-rebuild (corrected routine) = identity *)
+(* ---------------------------------------------------------------- extract-then-rebuild = identity *)
 Section Gen.
 Variables (hv jv : rvec) (K : cmat).
 Let L : cmat := lcb_hjk d B (op_of_vec d B hv) (op_of_vec d B jv) K.
 
-Theorem rebuild_fix_id : meq n n (rebuild_cb true d B L) L.
+Theorem rebuild_id : meq n n (rebuild_cb d B L) L.
 Proof. intros s t Hs Ht. unfold rebuild_cb. cbv beta iota.
   etransitivity.
-  { apply (lcb_hjk_ext _ _ _ _ _ _ (extract_h F d Hd B sd Horth Hherm H0 Hsd hv jv K) (extract_j_fix F d Hd B sd Horth Hherm H0 Hsd hv jv K)
+  { apply (lcb_hjk_ext _ _ _ _ _ _ (extract_h F d Hd B sd Horth Hherm H0 Hsd hv jv K) (extract_j F d Hd B sd Horth Hherm H0 Hsd hv jv K)
              (extract_k F d Hd B sd Horth Hherm H0 hv jv K) s t Hs Ht). }
   unfold L, lcb_hjk, madd. now rewrite (h_part_drop0 hv s t Hs Ht). Qed.
 
-(* h + j + k parts = whole, computational basis (with the corrected calc_j_mat) *)
+(* h + j + k parts = whole, computational basis *)
 Theorem parts_sum_cb : meq n n
-  (madd (madd (h_part d (calc_h_mat d B L)) (j_part d (calc_j_mat_fix d B L))) (k_part d B (calc_k_mat d B L))) L.
-Proof. exact rebuild_fix_id. Qed.
+  (madd (madd (h_part d (calc_h_mat d B L)) (j_part d (calc_j_mat d B L))) (k_part d B (calc_k_mat d B L))) L.
+Proof. exact rebuild_id. Qed.
 
-(* ---------------------------------------------------------------- the routine as coded *)
-(* the coded result as a coefficient vector: identity component 0, B_1 component halved *)
-Definition jv_code : rvec := fun c => match c with O => c0 F | S a => cmul F (jv (S a)) (if Nat.eqb a 0 then half F else c1 F) end.
+(* ---------------------------------------------------------------- the routine AS CODED BEFORE FIX c18-calc-j-mat-identity-component *)
+(* its result as a coefficient vector: identity component 0, B_1 component halved *)
+Definition jv_prefix : rvec := fun c => match c with O => c0 F | S a => cmul F (jv (S a)) (if Nat.eqb a 0 then half F else c1 F) end.
 Lemma n_S : n = S m. Proof. pose proof Hn'. lia. Qed.
-Lemma j_code_opv : forall i j, calc_j_mat_code d B L i j = op_of_vec d B jv_code i j.
-Proof. intros i j. unfold L. rewrite (extract_j_code F d Hd B sd Horth Hherm H0 Hsd hv jv K).
-  unfold op_of_vec. rewrite n_S, sumn_S_first. cbn [jv_code]. rewrite <- n_S.
+Lemma j_prefix_opv : forall i j, calc_j_mat_prefix d B L i j = op_of_vec d B jv_prefix i j.
+Proof. intros i j. unfold L. rewrite (extract_j_prefix F d Hd B sd Horth Hherm H0 Hsd hv jv K).
+  unfold op_of_vec. rewrite n_S, sumn_S_first. cbn [jv_prefix]. rewrite <- n_S.
   replace (zof (c0 F) *c B 0%nat i j) with 0c by (apply cplx_eq; cbn; ring).
   match goal with |- ?x = _ => replace x with (0c +c x) at 1 by ring end. reflexivity. Qed.
 
 (* the identity component of the extracted matrix is always 0 — whatever the generator's anti-commutator matrix was *)
-Theorem j_code_drops_identity : trp d (calc_j_mat_code d B L) (B 0%nat) = 0c /\ trp d (op_of_vec d B jv) (B 0%nat) = zof (jv 0%nat).
+Theorem j_prefix_drops_identity : trp d (calc_j_mat_prefix d B L) (B 0%nat) = 0c /\ trp d (op_of_vec d B jv) (B 0%nat) = zof (jv 0%nat).
 Proof. split.
-  - rewrite (trp_ext F d _ (op_of_vec d B jv_code) (B 0%nat) (B 0%nat)); [|intros i j _ _; apply j_code_opv|apply meq_refl].
-    rewrite (opv_trp F d B Horth Hherm jv_code 0%nat Hn'). reflexivity.
+  - rewrite (trp_ext F d _ (op_of_vec d B jv_prefix) (B 0%nat) (B 0%nat)); [|intros i j _ _; apply j_prefix_opv|apply meq_refl].
+    rewrite (opv_trp F d B Horth Hherm jv_prefix 0%nat Hn'). reflexivity.
   - apply (opv_trp F d B Horth Hherm jv 0%nat Hn'). Qed.
 
-Theorem j_code_wrong : jv 0%nat <> c0 F -> ~ meq d d (calc_j_mat_code d B L) (op_of_vec d B jv).
-Proof. intros Hne Heq. destruct j_code_drops_identity as [A C].
+Theorem j_prefix_wrong : jv 0%nat <> c0 F -> ~ meq d d (calc_j_mat_prefix d B L) (op_of_vec d B jv).
+Proof. intros Hne Heq. destruct j_prefix_drops_identity as [A C].
   rewrite (trp_ext F d _ (op_of_vec d B jv) (B 0%nat) (B 0%nat) Heq (meq_refl d d _)) in A.
   rewrite C in A. apply Hne. now apply (zof_inj F). Qed.
 
-(* consequently extract-then-rebuild with the coded routine changes every generator with tr J <> 0 *)
-Theorem rebuild_code_wrong : jv 0%nat <> c0 F -> ~ meq n n (rebuild_cb false d B L) L.
+(* consequently extract-then-rebuild with the pre-fix routine changes every generator with tr J <> 0 *)
+Theorem rebuild_prefix_wrong : jv 0%nat <> c0 F -> ~ meq n n (rebuild_cb_prefix d B L) L.
 Proof. intros Hne Heq.
   set (hv' := fun a => csub F (hv a) (cmul F (hv 0%nat) (dF a))).
-  assert (E1 : meq n n (rebuild_cb false d B L) (lcb_hjk d B (op_of_vec d B hv') (op_of_vec d B jv_code) K)).
+  assert (E1 : meq n n (rebuild_cb_prefix d B L) (lcb_hjk d B (op_of_vec d B hv') (op_of_vec d B jv_prefix) K)).
   { unfold rebuild_cb. cbv beta iota. apply lcb_hjk_ext.
     - apply (extract_h F d Hd B sd Horth Hherm H0 Hsd hv jv K).
-    - intros i j _ _. apply j_code_opv.
+    - intros i j _ _. apply j_prefix_opv.
     - apply (extract_k F d Hd B sd Horth Hherm H0 hv jv K). }
-  pose proof (j_coef_fix_L F d Hd B sd Horth Hherm H0 Hsd hv' jv_code K 0%nat Hn') as A.
-  pose proof (j_coef_fix_L F d Hd B sd Horth Hherm H0 Hsd hv jv K 0%nat Hn') as C.
-  fold L in C. unfold j_coef_fix in A, C.
+  pose proof (j_coef_L F d Hd B sd Horth Hherm H0 Hsd hv' jv_prefix K 0%nat Hn') as A.
+  pose proof (j_coef_L F d Hd B sd Horth Hherm H0 Hsd hv jv K 0%nat Hn') as C.
+  fold L in C. unfold j_coef in A, C.
   rewrite <- (tr2_ext F d _ _ _ _ E1 (meq_refl n n _)) in A.
   rewrite (tr2_ext F d _ _ _ _ Heq (meq_refl n n _)) in A. rewrite C in A.
   apply Hne. symmetry. now apply (zof_inj F). Qed.
+(* ---------------------------------------------------------------- the inequality projection (K replaced by K', H and J kept) *)
+Lemma calc_k_mat_ext (X X' : cmat) : meq n n X X' -> meq m m (calc_k_mat d B X) (calc_k_mat d B X').
+Proof. intros H a b _ _. unfold calc_k_mat. apply (tr2_ext F d); [exact H|apply meq_refl]. Qed.
+Lemma calc_h_mat_ext (X X' : cmat) : meq n n X X' -> meq d d (calc_h_mat d B X) (calc_h_mat d B X').
+Proof. intros H i j _ _. unfold calc_h_mat. apply (@sumn_ext Cx); intros a _. f_equal. unfold h_coef. f_equal.
+  apply (tr2_ext F d); [exact H|apply meq_refl]. Qed.
+Lemma calc_j_mat_ext (X X' : cmat) : meq n n X X' -> meq d d (calc_j_mat d B X) (calc_j_mat d B X').
+Proof. intros H i j _ _. unfold calc_j_mat. apply (@sumn_ext Cx); intros a _. f_equal. unfold j_coef. f_equal.
+  apply (tr2_ext F d); [exact H|apply meq_refl]. Qed.
+
+Let hv' : rvec := fun a => csub F (hv a) (cmul F (hv 0%nat) (dF a)).
+Lemma proj_ineq_form (K' : cmat) :
+  meq n n (proj_ineq_cb d B L K') (lcb_hjk d B (op_of_vec d B hv') (op_of_vec d B jv) K').
+Proof. unfold proj_ineq_cb. apply lcb_hjk_ext.
+  - apply (extract_h F d Hd B sd Horth Hherm H0 Hsd hv jv K).
+  - apply (extract_j F d Hd B sd Horth Hherm H0 Hsd hv jv K).
+  - apply meq_refl. Qed.
+(* the projected generator has dissipator matrix K', the same Hamiltonian and anti-commutator matrices as L,
+   and IS L when K' = K (in particular when K was already positive semidefinite and K' is its nearest PSD point) *)
+Theorem proj_ineq_spec (K' : cmat) :
+  meq m m (calc_k_mat d B (proj_ineq_cb d B L K')) K' /\
+  meq d d (calc_h_mat d B (proj_ineq_cb d B L K')) (calc_h_mat d B L) /\
+  meq d d (calc_j_mat d B (proj_ineq_cb d B L K')) (calc_j_mat d B L) /\
+  (meq m m K' K -> meq n n (proj_ineq_cb d B L K') L).
+Proof. pose proof (proj_ineq_form K') as E. repeat split.
+  - intros a b Ha Hb. rewrite (calc_k_mat_ext _ _ E a b Ha Hb).
+    apply (extract_k F d Hd B sd Horth Hherm H0 hv' jv K' a b Ha Hb).
+  - intros i j Hi Hj. rewrite (calc_h_mat_ext _ _ E i j Hi Hj).
+    rewrite (extract_h F d Hd B sd Horth Hherm H0 Hsd hv' jv K' i j Hi Hj). unfold L.
+    rewrite (extract_h F d Hd B sd Horth Hherm H0 Hsd hv jv K i j Hi Hj).
+    unfold op_of_vec. apply (@sumn_ext Cx); intros a _. f_equal. f_equal. unfold hv', C18_Extract.dF. cbn [Nat.eqb].
+    destruct (Nat.eqb a 0); ring.
+  - intros i j Hi Hj. rewrite (calc_j_mat_ext _ _ E i j Hi Hj).
+    rewrite (extract_j F d Hd B sd Horth Hherm H0 Hsd hv' jv K' i j Hi Hj). unfold L.
+    now rewrite (extract_j F d Hd B sd Horth Hherm H0 Hsd hv jv K i j Hi Hj).
+  - intros HK s t Hs Ht. rewrite (E s t Hs Ht).
+    rewrite (lcb_hjk_ext _ _ _ _ _ _ (meq_refl d d _) (meq_refl d d _) HK s t Hs Ht).
+    unfold L, lcb_hjk, madd, hv'. now rewrite (h_part_drop0 hv s t Hs Ht). Qed.
 End Gen.
 
 (* ---------------------------------------------------------------- change of basis: linear, so the parts also sum in the B basis *)
@@ -139,7 +178,7 @@ Proof. unfold chs_of_cb.
   apply mmul_madd_l. Qed.
 
 Theorem parts_sum_B (hv jv : rvec) (K : cmat) : let L := lcb_hjk d B (op_of_vec d B hv) (op_of_vec d B jv) K in
-  forall a b, chs_of_cb d B (h_part d (calc_h_mat d B L)) a b +c chs_of_cb d B (j_part d (calc_j_mat_fix d B L)) a b
+  forall a b, chs_of_cb d B (h_part d (calc_h_mat d B L)) a b +c chs_of_cb d B (j_part d (calc_j_mat d B L)) a b
               +c chs_of_cb d B (k_part d B (calc_k_mat d B L)) a b = chs_of_cb d B L a b.
 Proof. intros L a b. rewrite <- !chs_of_cb_madd. apply chs_of_cb_ext. apply parts_sum_cb. Qed.
 End Rebuild.
